@@ -75,6 +75,8 @@ pub fn for_each_program(tier: Tier, sink: &mut dyn FnMut(Program)) {
     if tier == Tier::Thorough {
         // depth 3: every operator, every position, around every spine-2 expression
         g.spine_stream(&s2, true, &mut |t, e| push(mk(gen::ret_body(e), t, "spine3")));
+        // statement templates whose holes run over every depth-2 expression
+        g.statement_bodies_stream(&s2, true, &mut |t, body| push(mk(body, t, "stmt2")));
     }
 }
 
@@ -412,7 +414,7 @@ pub fn finish_common(rep: &mut Report, args: &Args, ntuples: usize) {
         "bounds",
         match args.tier {
             Tier::Quick => "expression depth 2 (full1 + spine2 + square2 + never) and statement templates over depth-1 holes",
-            Tier::Thorough => "expression depth 3 (quick + spine3) and statement templates over depth-2 holes",
+            Tier::Thorough => "expression depth 3 (quick + every operator around every depth-2 expression) and statement templates over depth-2 holes",
         },
     );
     rep.assume("the reference interpreter in harness/pol-check/src/lang.rs is the language semantics (built from grammar and compiler comments only)");
